@@ -326,6 +326,8 @@ fn gen_invalid(rng: &mut Rng, f: &Field, inj: &mut Inject) -> Val {
     use DataType as T;
     let mut none = Inject { countdown: -1, what: None };
     let (v, what): (Val, &str) = match &f.data_type {
+        // a null for a non-nullable column, in each of its presentations (None, the unit value, a unit struct)
+        _ if !f.nullable && !matches!(f.data_type, T::Null) && !matches!(f.data_type, T::Union(_, _)) && rng.chance(1, 4) => (match rng.below(4) { 0 => Val::Unit, 1 => Val::UnitStruct, _ => Val::None }, "null_into_non_nullable"),
         _ if !f.nullable && !matches!(f.data_type, T::Null) && rng.chance(1, 4) => (Val::None, "null_into_non_nullable"),
         T::Int8 | T::Int16 | T::Int32 | T::Int64 | T::UInt8 | T::UInt16 | T::UInt32 | T::UInt64 => {
             let k = intkind_of(&f.data_type).unwrap(); let (lo, hi) = k.range();
@@ -338,7 +340,13 @@ fn gen_invalid(rng: &mut Rng, f: &Field, inj: &mut Inject) -> Val {
         T::FixedSizeList(c, n) => (Val::Seq((0..(*n as usize + 1)).map(|_| gen_val(rng, c, &mut none)).collect()), "wrong_fixed_count"),
         T::Struct(fs) => {
             match rng.below(3) {
-                0 => { if let Some(req) = fs.iter().position(|x| !x.nullable && !matches!(x.data_type, T::Null)) { let out: Vec<(String, Val)> = fs.iter().enumerate().filter(|(i, _)| *i != req).map(|(_, x)| (x.name.clone(), gen_val(rng, x, &mut none))).collect(); (Val::Struct(out, 0), "missing_required_field") } else { (Val::Int(IK::I32, 1), "wrong_kind") } }
+                0 => { if let Some(req) = fs.iter().position(|x| !x.nullable && !matches!(x.data_type, T::Null)) { let out: Vec<(String, Val)> = fs.iter().enumerate().filter(|(i, _)| *i != req).map(|(_, x)| (x.name.clone(), gen_val(rng, x, &mut none))).collect();
+                       // the required field is absent: through the struct protocol, through the map protocol, or (when it is the last one) in a tuple that ends early
+                       match rng.below(3) {
+                           0 => (Val::Struct(out, 0), "missing_required_field"),
+                           1 => (Val::Map(out.into_iter().map(|(k, v)| (Val::Str(k), v)).collect()), "missing_required_field"),
+                           _ => { let last_req = fs.iter().rposition(|x| !x.nullable && !matches!(x.data_type, T::Null)).unwrap(); (Val::Tuple(fs.iter().take(last_req).map(|x| gen_val(rng, x, &mut none)).collect()), "missing_required_field") }
+                       } } else { (Val::Int(IK::I32, 1), "wrong_kind") } }
                 1 => { let mut out: Vec<(String, Val)> = fs.iter().map(|x| (x.name.clone(), gen_val(rng, x, &mut none))).collect(); let d = out[0].clone(); out.push(d);
                        // the same key twice: through the struct protocol, or through the map protocol (flattened / hand-written Serialize impls)
                        if rng.chance(1, 2) { (Val::Struct(out, 0), "duplicate_field") } else { (Val::Map(out.into_iter().map(|(k, v)| (Val::Str(k), v)).collect()), "duplicate_field") } }
